@@ -1,5 +1,6 @@
 import Rangers.Model.TrieMachine
 import Rangers.Proofs.TrieLiveHash
+import Rangers.Proofs.TrieDecode
 /- Simulation: every operation of the live-trie machine observes what the loaded machine observes. -/
 namespace Rangers.Trie
 open Rangers
@@ -121,6 +122,7 @@ structure Sim (H : Bytes → Bytes) (lt : LTrie) (t : Node) : Prop where
 structure HashOK (H : Bytes → Bytes) : Prop where
   nocoll : NoColl H
   noconst : ∀ t, WF t → H (enc H t) ≠ emptyRoot ∧ H (enc H t) ≠ List.replicate 32 0
+  len32 : ∀ x, (H x).length = 32
 
 theorem sim_empty (H : Bytes → Bytes) : Sim H LTrie.empty .nil :=
   ⟨Or.inl rfl, AbsR_nil.mpr rfl, fun h c hl => by simp [LTrie.empty] at hl⟩
@@ -207,10 +209,30 @@ theorem sim_reopen {H : Bytes → Bytes} (hok : HashOK H) {lt : LTrie} {t : Node
     simp only [LTrie.open, hrh, e1, e2, Bool.or_self, Bool.false_eq_true, if_false, hres, Option.map_some]
     exact ⟨by rw [rootHash_of_ne_nil H t hwf.ne_nil], ⟨Or.inr hwf, Or.inl habs, c2.sound⟩⟩
 
+/-- the disk variant: the root blob is decoded instead of expanded from the memory cache -/
+theorem sim_reopenDisk {H : Bytes → Bytes} (hok : HashOK H) {lt : LTrie} {t : Node} (h : Sim H lt t)
+    (hsz : (enc H t).length < 256 ^ 8) :
+    (lt.reopenDisk H).2 = .root (rootHash H t) ∧ Sim H (lt.reopenDisk H).1 t := by
+  obtain ⟨c1, c2, c3⟩ := sim_commit hok h
+  have hmem := sim_reopen hok h
+  unfold LTrie.reopenDisk
+  unfold LTrie.reopen at hmem
+  simp only [] at hmem ⊢
+  rcases h.wf with rfl | hwf
+  · have : (lt.commit H).1 = emptyRoot := by rw [c1]; rfl
+    simp only [LTrie.openDisk, this, beq_self_eq_true, Bool.true_or, if_true]
+    exact ⟨rfl, ⟨Or.inl rfl, AbsR_nil.mpr rfl, c2.sound⟩⟩
+  · obtain ⟨hlk, _⟩ := c3 hwf
+    have hrh : (lt.commit H).1 = H (enc H t) := by rw [c1, rootHash_of_ne_nil H t hwf.ne_nil]
+    have heq := resolveHashDisk_eq H hok.len32 (lt.commit H).2.db 0 t hwf hsz _ hlk
+    have : LTrie.openDisk (lt.commit H).2.db (lt.commit H).1 = LTrie.open (lt.commit H).2.db (lt.commit H).1 := by
+      simp only [LTrie.openDisk, LTrie.open, hrh, heq]
+    rw [this]; exact hmem
+
 theorem fuelFor_ok (k : Key) : 2 * k.length + 2 ≤ fuelFor k := by unfold fuelFor; omega
 
 theorem sim_step {H : Bytes → Bytes} (hok : HashOK H) (F : Nat) {lt : LTrie} {t : Node} (h : Sim H lt t)
-    (hF : 2 * height t + 2 ≤ F) (op : Op) :
+    (hF : 2 * height t + 2 ≤ F) (hsz : (enc H t).length < 256 ^ 8) (op : Op) :
     (lstep H F lt op).2 = (nstep H t op).2 ∧ Sim H (lstep H F lt op).1 (nstep H t op).1 := by
   have hdel : ∀ k, ∃ lt', lt.remove k = some lt' ∧ Sim H lt' (remove t k) := by
     intro k
@@ -256,7 +278,7 @@ theorem sim_step {H : Bytes → Bytes} (hok : HashOK H) (F : Nat) {lt : LTrie} {
     obtain ⟨h1, h2, _⟩ := sim_commit hok h
     exact ⟨by rw [h1], h2⟩
   | reopen => simp only [lstep, nstep]; exact sim_reopen hok h
-  | dbcommit => simp only [lstep, nstep]; exact sim_reopen hok h
+  | dbcommit => simp only [lstep, nstep]; exact sim_reopenDisk hok h hsz
   | cachelimit n => simp only [lstep, nstep]; exact ⟨trivial, ⟨h.wf, h.abs, h.sound⟩⟩
   | iter start =>
     simp only [lstep, nstep]
